@@ -16,7 +16,7 @@ from ..mast import Unsupported, callee, strip_casts, pp, walk, calls
 from ..facts import NS
 from ..omach import OMachine, Obj, Vec, It, Fault
 from . import common
-from .c09_match import PWorld, Tok, Reject, tree, patterns, ref_match, INDEXED_STEPS
+from .c09_match import PWorld, Tok, Reject, tree, patterns, ref_match, INDEXED_STEPS, step_matches
 from .c12_order import TNode
 
 
@@ -238,14 +238,26 @@ class Pipeline:
         if loop is None:
             raise AnalysisBroken('addTemplate: the loop over the target data is gone')
         self.loop = loop
+        # the locals the loop reads, found by what they are (type / initialiser), not by what they are called
         self.locals_ = {}
         for x in walk(add['body']):
             if x.get('k') == 'Decl':
                 for v in x.get('vars', []):
-                    self.locals_[v['n']] = v['id']
+                    ty = v.get('ty') or ''
+                    ini = v.get('init')
+                    inicalls = [(c.get('n') or '') for c in calls(ini)] if ini is not None else []
+                    if 'TargetData' in ty and ('Vector' in ty):
+                        self.locals_['data'] = v['id']
+                    elif 'getMatchPattern' in inicalls:
+                        self.locals_['xp'] = v['id']
+                    elif ty.replace('xalanc_1_12::', '').strip() == 'XalanDOMString &':
+                        self.locals_['tempString'] = v['id']
+                    elif 'size' in inicalls and 'data' in self.locals_ and any(y.get('k') == 'Ref' and y.get('id') == self.locals_['data'] for y in walk(ini)):
+                        self.locals_['nTargets'] = v['id']
         for need in ('data', 'nTargets', 'tempString', 'xp'):
             if need not in self.locals_:
-                raise AnalysisBroken('addTemplate: local %s is gone' % need)
+                raise AnalysisBroken('addTemplate: the local that holds %s is gone' % {'data': 'the target data', 'nTargets': 'the number of targets',
+                                                                                       'tempString': 'the target string', 'xp': 'the match pattern'}[need])
         self.T = {k2: facts.enumconst.get(NS + 'XalanNode::' + v) for k2, v in (('elem', 'ELEMENT_NODE'), ('attr', 'ATTRIBUTE_NODE'), ('text', 'TEXT_NODE'), ('doc', 'DOCUMENT_NODE'),
                                                                                  ('comment', 'COMMENT_NODE'), ('pi', 'PROCESSING_INSTRUCTION_NODE'))}
         if None in self.T.values():
@@ -389,6 +401,15 @@ def run_c09_rule(res, facts, tier):
 POOL = [(['a'], 0.0), (['b'], 0.0), (['*'], -0.5), (['a', '/', 'b'], 0.5), (['*', '/', 'a'], 0.5), (['@', 'x'], 0.0), (['@', '*'], -0.5), (['node', '(', ')'], -0.5),
         (['text', '(', ')'], -0.5), (['b', '[', '1', ']'], 0.5), (['/'], 0.5), (['comment', '(', ')'], -0.5)]
 EXPLICIT = (None, -1.0, 0.25)
+# unions whose alternatives have different default priorities (XSLT 1.0 5.5: each alternative is a rule of its own)
+UNIONS = [(['b'], 0.0, ['a', '/', 'b'], 0.5), (['a', '/', 'b'], 0.5, ['b'], 0.0), (['*'], -0.5, ['b', '[', '1', ']'], 0.5), (['@', '*'], -0.5, ['@', 'x'], 0.0),
+          (['a'], 0.0, ['*', '/', 'a'], 0.5), (['node', '(', ')'], -0.5, ['a'], 0.0), (['text', '(', ')'], -0.5, ['b'], 0.0)]
+
+
+def base_step(alt):
+    """the node test of the last step of one alternative (what the entry is filed under)"""
+    last = split_last(alt)
+    return last[:last.index('[')] if '[' in last else last
 
 
 def run_select_rule(res, facts, tier):
@@ -404,7 +425,8 @@ def run_select_rule(res, facts, tier):
     ftii = P.one('Stylesheet::findTemplateInImports')
     NONE = facts.enumconst.get(NS + 'XPath::eMatchScoreNone')
     deep = tier == 'thorough'
-    rules1 = [(toks, dflt, ex) for toks, dflt in POOL for ex in EXPLICIT]
+    rules1 = [([(toks, dflt)], ex) for toks, dflt in POOL for ex in EXPLICIT]
+    unions1 = [([(t1, d1), (t2, d2)], ex) for t1, d1, t2, d2 in UNIONS for ex in (None, 0.25)]
     sheets = []
     for i, (x, y) in enumerate(itertools.product(rules1, repeat=2)):
         if deep or i % 2 == 0:
@@ -412,6 +434,11 @@ def run_select_rule(res, facts, tier):
     for i, t in enumerate(itertools.product(rules1[::2], repeat=3)):
         if i % (23 if deep else 211) == 0:
             sheets.append(list(t))
+    competitors = [r1 for r1 in rules1 if r1[1] in (None, 0.25) and r1[0][0][0] in (['a'], ['b'], ['*'], ['@', 'x'], ['@', '*'], ['a', '/', 'b'], ['node', '(', ')'])]
+    for i, (u, c) in enumerate(itertools.product(unions1, competitors)):
+        if deep or i % 2 == 0:
+            sheets.append([u, c])
+            sheets.append([c, u])
     default_mode = Obj('qname', {'name': ''})
     other_mode = Obj('qname', {'name': 'm'})
 
@@ -421,13 +448,16 @@ def run_select_rule(res, facts, tier):
         inst = 0
         found = {}
         for sheet_rules in part:
-            label = ' ; '.join('match="%s"%s' % (''.join(t), '' if ex is None else ' priority="%s"' % ex) for t, d, ex in sheet_rules)
+            label = ' ; '.join('match="%s"%s' % ('|'.join(''.join(t) for t, d in alts), '' if ex is None else ' priority="%s"' % ex) for alts, ex in sheet_rules)
             try:
                 sheet = P.new_sheet()
                 tmpls = []
-                for k, (toks, dflt, ex) in enumerate(sheet_rules):
+                for k, (alts, ex) in enumerate(sheet_rules):
+                    toks = []
+                    for t2, d2 in alts:
+                        toks += (['|'] if toks else []) + list(t2)
                     t, _ = P.file_rule(sheet, 'T%d' % (k + 1), toks, float('-inf') if ex is None else ex)
-                    tmpls.append((t, toks, dflt if ex is None else ex, k))
+                    tmpls.append((t, alts, ex, k))
                 tm, _ = P.file_rule(sheet, 'M', ['*'], float('-inf'), 'm')       # rules of two other modes: never chosen in the default mode, nor in each other's
                 P.file_rule(sheet, 'N', ['*'], float('-inf'), 'n')
                 P.finish_sheet(sheet)
@@ -438,8 +468,17 @@ def run_select_rule(res, facts, tier):
             except Unsupported as u:
                 raise AnalysisBroken('filing outside the interpreted subset on [%s]: %s' % (label, u))
             for nd in P.nodes:
-                cands = [(prio, k, t) for t, toks, prio, k in tmpls if ref_match(toks, nd)]
+                cands, kcands = [], []
+                for t, alts, ex, k in tmpls:
+                    hit = [d2 for t2, d2 in alts if ref_match(t2, nd)]
+                    if hit:
+                        cands.append((ex if ex is not None else max(hit), k, t))
+                        # the tree as it is (C10-R6, known finding): an entry is filed per alternative under the node test of its last step and tested with the WHOLE pattern,
+                        # so an alternative whose last step fits the node lends its default priority even when it does not match
+                        lend = [d2 for t2, d2 in alts if (nd.kind == 'doc' if base_step(t2) == ['/'] else step_matches(base_step(t2), nd))]
+                        kcands.append((ex if ex is not None else max(lend or hit), k, t))
                 want = max(cands, key=lambda c: (c[0], c[1]))[2] if cands else None
+                kwant = max(kcands, key=lambda c: (c[0], c[1]))[2] if kcands else None
                 for mode, wantm in ((default_mode, want), (other_mode, tm if nd.kind == 'elem' else None)):
                     if mode is other_mode and nd is not first_elem and nd.kind == 'elem':
                         continue
@@ -458,6 +497,11 @@ def run_select_rule(res, facts, tier):
                             got = None
                         if got is wantm:
                             continue
+                        if mode is default_mode and got is kwant:
+                            found.setdefault(('union', 'both'), ('[%s], node %s' % (label, nd.name),
+                                                                 'findTemplate returns %s, XSLT 1.0 5.5 requires %s: the union rule is credited with the default priority of an alternative '
+                                                                 'that does not match this node' % (got.fields['name'] if got is not None else 'none', wantm.fields['name'] if wantm is not None else 'none')))
+                            continue
                         def nm(t):
                             return 'none (built-in rule)' if t is None else (t if isinstance(t, str) else t.fields['name'])
                         kind = 'mode' if mode is other_mode or got is tm else ('no rule' if got is None else ('priority' if wantm is not None and got is not None else 'match'))
@@ -474,6 +518,9 @@ def run_select_rule(res, facts, tier):
         for k2, v in fnd.items():
             found.setdefault(k2, v)
     for (kind, branch), (site, what) in sorted(found.items()):
-        r.violation('choice (%s, %s branch)' % (kind, branch), '%s: %s' % (site, what), common.file_line(find))
+        if kind == 'union':
+            r.violation('choice: a union rule takes the priority of an alternative that does not match the node', '%s: %s' % (site, what), common.file_line(find))
+        else:
+            r.violation('choice (%s, %s branch)' % (kind, branch), '%s: %s' % (site, what), common.file_line(find))
     r.note('%d stylesheets x %d nodes x 2 branches' % (len(sheets), len(P.nodes)))
     return r
